@@ -371,7 +371,7 @@ fn run_config(cfg: &Config, thorough: bool, acc: &mut Acc) {
 
 fn configs(thorough: bool) -> Vec<Config> {
     let mut v = Vec::new();
-    let pmax = 6;
+    let pmax = 9;
     for (hname, m) in codes() {
         if hname == "dense4x12" && !thorough {
             // quick: a reduced menu for the largest code
@@ -457,7 +457,7 @@ pub fn run(run: &Run) -> i32 {
         run,
         acc,
         Coverage {
-            rule: "codes {3x5 staircase, 3x6 and 3x9 general, 4x12 dense} x {BPSK, 8PSK where 3 | frame size} x {no puncturing, EVERY boolean pattern of length p | n, p <= 6, >= 1 true} x {no interleaver, +-c for EVERY c | frame size} x Eb/N0 in {-3, 2.5, 9, 60} dB x 2 (thorough 4) noise streams; each run feeds ALL 2^k messages (dense 4x12 in quick: weight <= 2 and all-ones) through the real BerTest built by BerTestBuilder with 1 worker, a harness-owned RNG (message bits forced through the engine's own sampling call, deterministic noise stream) and a probing decoder that records every LLR vector. Oracle: independent chain (own GF(2) systematic codeword, block puncturing, column-write/row-read permutation, literal constellation table, sigma from the after-puncturing rate and bits/symbol, sigma * standard-normal draws taken in order from a clone of the stream, closed-form posterior LLR, inverse permutation, zero-filled depuncturing): length, exact 0.0 at punctured positions, values within 1e-9 relative, codeword signs at 60 dB, reported n / n_cw / k / rate. Every configuration is distinct; non-trivial = run completed and compared.".into(),
+            rule: "codes {3x5 staircase, 3x6 and 3x9 general, 4x12 dense} x {BPSK, 8PSK where 3 | frame size} x {no puncturing, EVERY boolean pattern of length p | n, p <= 9, >= 1 true (includes the smallest case where n / rate is not exact in binary: n = 9, 9 blocks keeping 7)} x {no interleaver, +-c for EVERY c | frame size} x Eb/N0 in {-3, 2.5, 9, 60} dB x 2 (thorough 4) noise streams; each run feeds ALL 2^k messages (dense 4x12 in quick: weight <= 2 and all-ones) through the real BerTest built by BerTestBuilder with 1 worker, a harness-owned RNG (message bits forced through the engine's own sampling call, deterministic noise stream) and a probing decoder that records every LLR vector. Oracle: independent chain (own GF(2) systematic codeword, block puncturing, column-write/row-read permutation, literal constellation table, sigma from the after-puncturing rate and bits/symbol, sigma * standard-normal draws taken in order from a clone of the stream, closed-form posterior LLR, inverse permutation, zero-filled depuncturing): length, exact 0.0 at punctured positions, values within 1e-9 relative, codeword signs at 60 dB, reported n / n_cw / k / rate. Every configuration is distinct; non-trivial = run completed and compared.".into(),
             exhaustive: true,
             extra,
             graph: None,
